@@ -30,6 +30,42 @@ REDUCE_CALLS = {'np.sum', 'np.amax', 'np.amin', 'np.any', 'np.all', 'np.linalg.m
 SITE_FILES = ['kawin/thermo/Thermodynamics.py', 'kawin/thermo/MultiTherm.py', 'kawin/diffusion/DiffusionParameters.py', 'kawin/diffusion/HomogenizationParameters.py']
 
 
+def _idx_names(e):
+    """names in an index expression; a permutation map held in a field counts under its dotted name ('self._unsortIndices')"""
+    out = set(U.names_in(e))
+    for n in ast.walk(e):
+        if isinstance(n, ast.Attribute) and isinstance(n.value, ast.Name) and n.value.id == 'self':
+            out.add(f'self.{n.attr}')
+    return out
+
+
+def _field_maps(repo, path, q):
+    """(sort fields, unsort fields) of the class of method q: self.X = argsort(<..>.elements[..]) / self.Y = argsort(self.X) in a
+    method of the class (the constructor), each field assigned exactly once in the class"""
+    if '.' not in q:
+        return {}, {}
+    cls = q.split('.')[0]
+    sorts, unsorts, count = {}, {}, {}
+    for q2, f2 in repo.functions(path):
+        if not q2.startswith(cls + '.'):
+            continue
+        for st in ast.walk(f2):
+            if isinstance(st, ast.Assign) and len(st.targets) == 1 and isinstance(st.targets[0], ast.Attribute) and isinstance(st.targets[0].value, ast.Name) \
+                    and st.targets[0].value.id == 'self':
+                nm = f'self.{st.targets[0].attr}'
+                count[nm] = count.get(nm, 0) + 1
+                v = st.value
+                if isinstance(v, ast.Call) and U.call_name(v) == 'np.argsort' and v.args:
+                    a = v.args[0]
+                    if isinstance(a, ast.Subscript) and U.chain(a.value) and U.chain(a.value)[-1] == 'elements':
+                        sorts[nm] = (st, a)
+                    elif isinstance(a, ast.Attribute) and isinstance(a.value, ast.Name) and a.value.id == 'self':
+                        unsorts[nm] = (st, f'self.{a.attr}')
+    sorts = {k: v for k, v in sorts.items() if count.get(k) == 1}
+    unsorts = {k: v for k, v in unsorts.items() if count.get(k) == 1 and v[1] in sorts}
+    return sorts, unsorts
+
+
 class OrderTyper:
     def __init__(self, ctx, path, q, func, sort_names, unsort_names):
         self.ctx, self.path, self.q, self.f = ctx, path, q, func
@@ -92,13 +128,13 @@ class OrderTyper:
                 return self.ty(e.value)
             return NONE
         if isinstance(e, ast.Subscript):
-            names = U.names_in(e.slice)
+            names = _idx_names(e.slice)
             base = self.ty(e.value)
             if names & self.u:
-                # matrices are converted one axis at a time: M[u, :] then M[:, u]
-                if isinstance(e.slice, ast.Tuple) and len(e.slice.elts) == 2:
-                    ax = 0 if (U.names_in(e.slice.elts[0]) & self.u) else 1
-                    both = bool(U.names_in(e.slice.elts[0]) & self.u) and bool(U.names_in(e.slice.elts[1]) & self.u)
+                # matrices are converted one axis at a time: M[u, :] then M[:, u]   (v[..., u] permutes the last axis of a stack of vectors)
+                if isinstance(e.slice, ast.Tuple) and len(e.slice.elts) == 2 and not any(isinstance(x, ast.Constant) and x.value is Ellipsis for x in e.slice.elts):
+                    ax = 0 if (_idx_names(e.slice.elts[0]) & self.u) else 1
+                    both = bool(_idx_names(e.slice.elts[0]) & self.u) and bool(_idx_names(e.slice.elts[1]) & self.u)
                     if both:
                         return USER
                     if base in (ALPHA, NONE):
@@ -180,7 +216,22 @@ class OrderTyper:
                                     self.env[el.id] = ALPHA if 'chemical_potentials' in el.id else NONE
                     elif isinstance(tg, ast.Subscript):
                         # store into a result array / dict: the value must not be ALPHA
-                        if t == ALPHA and not (U.names_in(tg.slice) & (self.s | self.u)):
+                        # scatter: X[.., P] = v puts element k of v at position P[k], i.e. X = v[.., P^-1].  With the unsort index that is
+                        # v[sort] - the inverse of the conversion alphabetical -> user (which is the gather v[unsort] or the scatter by sort)
+                        sn = _idx_names(tg.slice)
+                        root_ = tg.value
+                        while isinstance(root_, ast.Subscript):
+                            root_ = root_.value
+                        if sn & self.u and t in (ALPHA, NONE) and isinstance(root_, ast.Name):
+                            if t == ALPHA:
+                                self.problems.append((st, f'an alphabetically ordered value is scattered with the unsort index ({U.src(st)[:70]}): X[.., unsort] = v is X = v[.., sort], the inverse '
+                                                          'of the conversion to the user order v[.., unsort]; the two agree only for element lists whose permutation is its own inverse'))
+                            self.env[root_.id] = MIX if t == ALPHA else self.env.get(root_.id, NONE)
+                            continue
+                        if sn & self.s and t == ALPHA and isinstance(root_, ast.Name):
+                            self.env[root_.id] = USER          # scatter by the sort index = gather by the unsort index
+                            continue
+                        if t == ALPHA and not (_idx_names(tg.slice) & (self.s | self.u)):
                             root = U.chain(tg)
                             if root and root[0] != 'self' and self.env.get(root[0], NONE) == ALPHA:
                                 continue
@@ -315,7 +366,19 @@ def r111(repo, ctx):
                         and st.value.args[0].id in sorts:
                     unsorts['<returned>'] = (st, st.value.args[0].id)
             params_u = {p for p in U.params(f) if p == 'unsortIndices'}
-            if not sorts and not params_u:
+            fsorts, funsorts = _field_maps(repo, path, q)
+            used = {f'self.{n.attr}' for n in ast.walk(f) if isinstance(n, ast.Attribute) and isinstance(n.value, ast.Name) and n.value.id == 'self' and isinstance(n.ctx, ast.Load)}
+            field_s = {k for k in fsorts if k in used}
+            field_u = {k for k in funsorts if k in used}
+            # the maps defined in this function (the constructor) are checked like local ones: slice of the element list, pairing
+            own_lines = {n.lineno for n in ast.walk(f) if hasattr(n, 'lineno')}
+            for k_, (st_, a_) in fsorts.items():
+                if st_.lineno in own_lines and any(isinstance(n, ast.Assign) and U.src(n) == U.src(st_) for n in ast.walk(f)):
+                    sorts[k_] = (st_, a_)
+            for k_, (st_, arg_) in funsorts.items():
+                if st_.lineno in own_lines and any(isinstance(n, ast.Assign) and U.src(n) == U.src(st_) for n in ast.walk(f)):
+                    unsorts[k_] = (st_, arg_)
+            if not sorts and not params_u and not field_s and not field_u:
                 continue
             for sname, (st, a) in sorts.items():
                 n_sites += 1
@@ -328,8 +391,10 @@ def r111(repo, ctx):
                           construct=f'{q}: unsort of {sname}')
             for uname, (ust, arg) in unsorts.items():
                 ctx.check(arg in sorts, 'R11.1', path, q, ust, f'{uname} is the argsort of a sort index of the element list', f'{uname} = argsort({arg}) where {arg} is not argsort(elements[..])')
-            unames = set(unsorts) | params_u
-            typer = OrderTyper(ctx, path, q, f, set(sorts), unames)
+            unames = set(unsorts) | params_u | set(funsorts)
+            if field_s or field_u:
+                n_sites += 1
+            typer = OrderTyper(ctx, path, q, f, set(sorts) | set(fsorts), unames)
             probs = typer.run()
             for node, text in probs:
                 ctx.violation('R11.1', path, q, node, text, construct=U.src(node)[:120])
